@@ -302,7 +302,28 @@ func (x *Exec) loopCut(fr *Frame, st *State, b *ssa.BasicBlock, backEdge bool) b
 	if fr.contract != nil {
 		env.pkg = fr.contract.Pkg
 	}
+	// engine-supplied invariant of range-over-slice loops: the hidden index stays in [-1, maxInt64)
+	// (checked like any other invariant: entry value -1, step idx+1 < len <= maxInt64)
+	var rangeIdx *ssa.Phi
+	for _, in := range b.Instrs {
+		if phi, ok := in.(*ssa.Phi); ok && phi.Comment == "rangeindex" {
+			rangeIdx = phi
+		}
+	}
+	autoInv := func(kind string, assume bool) {
+		if rangeIdx == nil {
+			return
+		}
+		v := fr.regs[rangeIdx]
+		g := And(Ge(v.T, Num(-1)), Lt(v.T, NumStr("9223372036854775807")))
+		if assume {
+			st.Assume(g)
+		} else {
+			x.emit(kind, label+":rangeindex-bounds", st, g, "engine-supplied range index bound")
+		}
+	}
 	evalInv := func(kind string) {
+		autoInv(kind, false)
 		if lc == nil {
 			return
 		}
@@ -406,7 +427,9 @@ func (x *Exec) loopCut(fr *Frame, st *State, b *ssa.BasicBlock, backEdge bool) b
 	nr := Const(freshName("ref:next"), SInt)
 	st.Assume(Ge(nr, st.NextRef))
 	st.NextRef = nr
+	st.assumeHeapWF()
 	ctx := &loopCtx{}
+	autoInv("", true)
 	if lc != nil {
 		env2 := *env
 		env2.st = st
